@@ -1076,6 +1076,14 @@ def eval_cases(f, names, atom, on_return, max_cases=256):
     return out
 
 
+class CaseThrow(Exception):
+    """the evaluated case ends in a throw"""
+
+
+class _LoopBreak(Exception):
+    pass
+
+
 class MiniInt:
     """Concrete evaluation of small integer/boolean code for case tables: literals, locals, parameters, arithmetic,
     bitwise, relational and logical operators, ?:, assignments and compound assignments, declarations, if/else, return,
@@ -1144,6 +1152,10 @@ class MiniInt:
         if k == "ConditionalOperator":
             c, a_, b_ = kids(n)
             return self.expr(a_ if self.expr(c, env, depth) else b_, env, depth)
+        if k in ("CStyleCastExpr", "CXXStaticCastExpr", "CXXFunctionalCastExpr", "CXXReinterpretCastExpr") and kids(n):
+            return self.expr(kids(n)[0], env, depth)
+        if k == "CXXThrowExpr":
+            raise CaseThrow(render(n)[:80])
         if k in ("CallExpr", "CXXMemberCallExpr") and depth < self.max_depth:
             g = getattr(self.F, "_by_id", {}).get(n.get("calleeId"))
             if g is not None and g.roots:
@@ -1182,12 +1194,32 @@ class MiniInt:
                         env[v["declId"]] = self.expr(kids(v)[0], env, depth) if kids(v) else 0
             elif k == "IfStmt":
                 ch = [x for x in s["c"] if x is not None]
+                if ch and ch[0]["k"] == "DeclStmt":          # if (auto v = init): the condition is the variable
+                    self.run([ch[0]], env, depth)
+                    ch = ch[1:]
                 if self.expr(ch[0], env, depth):
                     if self.run([ch[1]], env, depth, stop):
                         return True
                 elif len(ch) > 2:
                     if self.run([ch[2]], env, depth, stop):
                         return True
+            elif k == "SwitchStmt":
+                ch = [x for x in s["c"] if x is not None]
+                if ch and ch[0]["k"] == "DeclStmt":
+                    self.run([ch[0]], env, depth)
+                    ch = ch[1:]
+                v = self.expr(ch[0], env, depth)
+                secs = switch_sections(s)
+                seq = secs.get(v, secs.get("default", []))
+                try:
+                    if self.run([x for x in seq if x["k"] != "BreakStmt"], env, depth, stop):
+                        return True
+                except _LoopBreak:
+                    pass
+            elif k == "BreakStmt":
+                raise _LoopBreak()
+            elif k == "CXXThrowExpr" or (k == "ExprWithCleanups" and strip(s) is not None and strip(s)["k"] == "CXXThrowExpr"):
+                raise CaseThrow(render(s)[:80])
             elif k == "ReturnStmt":
                 raise _CaseReturn(self.expr(kids(s)[0], env, depth) if kids(s) else None)
             elif k == "NullStmt":
